@@ -162,7 +162,7 @@ class Flow:
         return any(s.name == name for ss in self.sites.values() for s in ss)
 
     # -- roots: what a value *is* ----------------------------------------------------
-    def roots(self, e: ast.AST, at: int | None = None, depth: int = 6, _seen=None) -> set[str]:
+    def roots(self, e: ast.AST, at: int | None = None, depth: int = 12, _seen=None) -> set[str]:
         """Shallow origins of the value of expression ``e`` evaluated at cfg node ``at``.
 
         Root descriptors (strings):  ``param:x``, ``param:x.attr.attr``, ``call:<qual>``,
